@@ -1,5 +1,5 @@
 add("C18","exploration",
- "runtime monitoring: seeded list generator + oracle over the discovery API's output in worker processes; real dcat against fake SSH servers counting connections per port; reconnect tier: dtail against fake servers that drop every connection, monitors over their connection log; more long-lived servers than the connection throttle admits at a time",
+ "runtime monitoring: seeded list generator + oracle over the discovery API's output in worker processes; real dcat against fake SSH servers counting connections per port; reconnect tier: dtail against fake servers that drop every connection, monitors over their connection log; more long-lived servers than the connection throttle admits at a time; lists in which most servers are down",
  "Held on the generated lists (sizes 0..5000, all duplicate layouts, comma/file/plug-in+regex) and on the e2e runs listed in the evidence; nothing is claimed for list shapes outside the generator.",
  "Trusted: Go regexp, sort; assumes blank entries are out of scope; the /regex/ filter is reached through a verif-tagged plug-in module.",
  "DESIGN.md §2 C18")
@@ -54,7 +54,7 @@ add("C10","exploration",
  "Trusted: the harness SSH client; crash attribution names the culprit and its five predecessors.",
  "DESIGN.md §2 C10")
 add("C13","exploration",
- "runtime monitoring: seeded session histories (open/drain/cancel-while-running/cancel-while-waiting/bursts/bursts of sessions hanging up right after their command) driven by a harness SSH client against in-process servers, plus the server's own continuous jobs; hook-free observation of the files the server process holds open (/proc/<pid>/fd sampled every 5 ms and at quiescent points) plus an online monitor over the limiter hook trace (acquisitions - releases within [0, limit], every release preceded by its acquisition)",
+ "runtime monitoring: seeded session histories (open/drain/cancel-while-running/cancel-while-waiting/bursts/bursts of sessions hanging up right after their command) driven by a harness SSH client against in-process servers, plus the server's own continuous jobs and serverless clients (files open in the client process); hook-free observation of the files the server process holds open (/proc/<pid>/fd sampled every 5 ms and at quiescent points) plus an online monitor over the limiter hook trace (acquisitions - releases within [0, limit], every release preceded by its acquisition)",
  "Held on the histories counted in the evidence (cat limit 1-3, tail limit 1-2, two users); cancellations while waiting actually achieved are counted.",
  "Trusted: /proc fd view; a blocked cat reader keeps its file open; hook call sites srv.lim.* (the /proc observation decides, the trace cross-checks).",
  "DESIGN.md §2 C13")
@@ -74,7 +74,7 @@ add("C06","exploration",
  "Trusted: hook call sites for attribution only (the CSV decides); c06.cmd-race (a read command received after the aggregator and session had finished) is accepted only with that trace pattern, no excess, and deficits on servers showing it; files of received commands missing from a result are violations.",
  "DESIGN.md §2 C06")
 add("C04","exploration",
- "runtime monitoring: the real tail reader follows real files in worker processes while the harness appends through seeded write() chunkers, starting only once the reader's descriptor offset (/proc fdinfo) shows it is positioned; delivered lines (content, running number, transmission percentage) are checked against the appended lines; real dtail (serverless and over SSH) for a sample, and 10 s follows with a continuous writer and a delay at the hook point where the follower sees EOF (housekeeping rounds), and follows interrupted by SIGINT with a slow consumer (order of the delivered lines); other sessions that end early or are killed run on the followed server meanwhile",
+ "runtime monitoring: the real tail reader follows real files in worker processes while the harness appends through seeded write() chunkers, starting only once the reader's descriptor offset (/proc fdinfo) shows it is positioned; delivered lines (content, running number, transmission percentage) are checked against the appended lines; real dtail (serverless and over SSH) for a sample, and 10 s follows with a continuous writer and a delay at the hook point where the follower sees EOF (housekeeping rounds), and follows interrupted by SIGINT with a slow consumer (order of the delivered lines); other sessions that end early or are killed run on the followed server meanwhile; one client following several files at once",
  "Held on the follows counted in the evidence (chunkers x sizes x queue regimes; drops actually provoked in regime b are counted).",
  "Trusted: /proc fdinfo offsets; regime a = queue can never be full; regime b without filter; append-only writers.",
  "DESIGN.md §2 C04")
